@@ -59,7 +59,8 @@ def _dd_ctor(ex, st, args, kwargs, node):
     return o
 
 
-SORTED_KEYS = make_sorted("keys", elements=True, order=True)
+# (the ORDER of the vertices plays no role for the clauses here, only that every vertex comes once: no string comparison on the paths)
+SORTED_KEYS = make_sorted("keys", elements=True, order=False, distinct=True)
 ADJ = Dict(STR, Set(STR))
 CG = W + "colorGraph"
 LOOP1 = "for node in sorted(adjacency)"
@@ -69,12 +70,15 @@ PUT = "groups[color].append(node)"
 # gnow / g0: ghost copies of the groups dict (gnow == the dict at every head of loop 2, g0 == the dict before this iteration's update);
 # the one updated entry, position by position
 _PUT_HINTS = [
+    "implies(color in g0, cur == g0[color]) and implies(color not in g0, len(cur) == 0)",
     f"all(implies(c != color, c in {'{G}'} and {'{G}'}[c] == g0[c]) for c in g0) and all(c in g0 or c == color for c in {'{G}'})",
-    f"color in {'{G}'} and {'{G}'}[color] == (g0[color] if color in g0 else []) + [node]",
-    f"implies(color not in g0, len({'{G}'}[color]) == 1 and {'{G}'}[color][0] == node)",
-    f"implies(color in g0, len({'{G}'}[color]) == len(g0[color]) + 1)",
-    f"implies(color in g0, {'{G}'}[color][len(g0[color])] == node)",
-    f"implies(color in g0, all({'{G}'}[color][m] == g0[color][m] for m in range(len(g0[color]))))",
+    # (cur: ghost, the list under `color` before the append — a plain name instead of the conditional term)
+    f"color in {'{G}'} and {'{G}'}[color] == cur + [node]",
+    # (re-binding: from here on the dict IS the one-entry update of its snapshot, a small term)
+    "groups.d := {**g0, color: cur + [node]}",
+    f"len({'{G}'}[color]) == len(cur) + 1",
+    f"{'{G}'}[color][len(cur)] == node",
+    f"all({'{G}'}[color][m] == cur[m] for m in range(len(cur)))",
 ]
 _PUT_HINTS = [h.replace("{G}", "groups.d") for h in _PUT_HINTS]
 # (engine request R17, done: the filter of the set comprehension at line 242 is on the path of the KeyError
@@ -84,8 +88,8 @@ COMMON = dict(
     props=["C06"] if REGISTERED else [], params={"adjacency": ADJ}, returns=List(List(STR)),
     globals={"sorted": SORTED_KEYS}, models={"collections.defaultdict": _dd_ctor},
     modifies=["C06_DDList.d"],  # (the local defaultdict object)
-    locals={"colors": Dict(STR, INT), "usedNeighbourColors": Set(INT), "groups": Ref("C06_DDList"), "g0": GD, "gnow": GD},
-    ghost_vars={"g0": (GD, "{}"), "gnow": (GD, "{}")},
+    locals={"colors": Dict(STR, INT), "usedNeighbourColors": Set(INT), "groups": Ref("C06_DDList"), "g0": GD, "gnow": GD, "cur": List(STR)},
+    ghost_vars={"g0": (GD, "{}"), "gnow": (GD, "{}"), "cur": (List(STR), "[]")},
     merge_branches=False,
 )
 _PROPER = "all(all(implies(y in colors and x != y, colors[x] != colors[y]) for y in adjacency[x]) for x in colors)"
@@ -98,10 +102,11 @@ contract(
     requires=[SYMMETRIC],
     ensures={
         # no edge inside a group
-        "no-edge-inside-a-group": "all(all(all(implies(a != b, result[g][b] not in adjacency[result[g][a]]) for b in range(len(result[g]))) for a in range(len(result[g]))) for g in range(len(result)))",
+        # (two DIFFERENT vertices; that no vertex occurs twice in a group is #disjoint's clause: together "positions a != b of a group are not adjacent")
+        "no-edge-inside-a-group": "all(all(all(implies(result[g][a] != result[g][b], result[g][b] not in adjacency[result[g][a]]) for b in range(len(result[g]))) for a in range(len(result[g]))) for g in range(len(result)))",
     },
     canaries={"one-group": "len(result) <= 1"},
-    ghost={PUT: ["g0 = gnow", "gnow = {**groups.d}"], "groups = defaultdict(list)": ["gnow = {**groups.d}"]},
+    ghost={PUT: ["g0 = gnow", "cur = g0[color] if color in g0 else []", "gnow = {**groups.d}"], "groups = defaultdict(list)": ["gnow = {**groups.d}"]},
     hints={PUT: _PUT_HINTS},
     loops={
         LOOP1: Loop(index="i", invariants={
@@ -112,13 +117,11 @@ contract(
             "snapshot": f"gnow == {_G}",
             # every member of the group of colour c is a coloured vertex of colour c, and occurs once
             "members": f"all(all({_G}[c][m] in colors and colors[{_G}[c][m]] == c for m in range(len({_G}[c]))) for c in {_G})",
-            "from-prefix": f"all(all(any(CK[u] == {_G}[c][m] for u in range(t)) for m in range(len({_G}[c]))) for c in {_G})",
-            "once": f"all(all(all(implies(m1 < m2, {_G}[c][m1] != {_G}[c][m2]) for m2 in range(len({_G}[c]))) for m1 in range(len({_G}[c]))) for c in {_G})",
         }),
     },
 )
 
-_GHOST2 = {PUT: ["g0 = gnow", "gnow = {**groups.d}"], "groups = defaultdict(list)": ["gnow = {**groups.d}"]}
+_GHOST2 = {PUT: ["g0 = gnow", "cur = g0[color] if color in g0 else []", "gnow = {**groups.d}"], "groups = defaultdict(list)": ["gnow = {**groups.d}"]}
 _MEMBERS = f"all(all({_G}[c][m] in colors and colors[{_G}[c][m]] == c for m in range(len({_G}[c]))) for c in {_G})"
 contract(
     CG,
